@@ -14,7 +14,7 @@
    for every ontology loaded from JAX text files with a closed hp.obo (C07_jax_roundtrip_complete) and
    for every sub-ontology of an ontology with exact caches (C07_sub_ontology_roundtrip_complete). *)
 From Coq Require Import Permutation.
-From HpoV Require Import Gen.Consts Model.Base Model.Group Model.Onto Model.Binary Proofs.GroupP Proofs.BinaryP Proofs.CodecP Proofs.SectionP Proofs.RoundTripP Proofs.ClosureP Proofs.LinkP Proofs.AcyclicP Proofs.AnnotP Proofs.BuilderAnnotP Proofs.ReloadP Proofs.RoundTripAllP Proofs.RoundTripSrcP Proofs.DistP Proofs.JaxP Model.Script Model.Text Model.SubOnt.
+From HpoV Require Import Gen.Consts Model.Base Model.Group Model.Onto Model.Binary Proofs.GroupP Proofs.BinaryP Proofs.CodecP Proofs.SectionP Proofs.RoundTripP Proofs.ClosureP Proofs.LinkP Proofs.AcyclicP Proofs.AnnotP Proofs.BuilderAnnotP Proofs.ReloadP Proofs.RoundTripAllP Proofs.RoundTripSrcP Proofs.AllPathsP Proofs.DistP Proofs.JaxP Model.Script Model.Text Model.SubOnt.
 
 Theorem C07_u32_roundtrip : forall n rest, n < 4294967296 -> u32_at (to_be32 n ++ rest) 0 = Ok n.
 Proof. exact u32_at_to_be32. Qed.
@@ -180,6 +180,18 @@ Theorem C07_sub_ontology_roundtrip_complete : forall icf o root leaves o' order 
   (forall k, o_records k o'' = map (raw_record k) (order (o_records k o'))) /\ o_version o'' = o_version o'.
 Proof. exact sub_roundtrip_complete. Qed.
 
+(* "FOR ALL ONTOLOGIES REACHABLE THROUGH THE PUBLIC CONSTRUCTORS": every [constructed] ontology
+   (Proofs/AllPathsP.v: Builder API, JAX loaders, from_bytes on a well-formed file, sub_ontology of
+   any such ontology, nested to any depth) that the format can carry round-trips *)
+Theorem C07_every_constructed_ontology_roundtrips : forall icf o order o'', constructed icf o ->
+  file_ok order o -> (forall l, Permutation (order l) l) -> decode icf (encode_with order o) = Ok o'' ->
+  Forall2 term_kept (ar_terms (o_arena o)) (ar_terms (o_arena o'')) /\
+  Forall2 (fun t t'' => forall k, t_annots k t'' = t_annots k t) (ar_terms (o_arena o)) (ar_terms (o_arena o'')) /\
+  Forall2 (fun t t'' => t_ic t'' = t_ic t) (ar_terms (o_arena o)) (ar_terms (o_arena o'')) /\
+  (forall k, o_records k o'' = map (raw_record k) (order (o_records k o))) /\ o_version o'' = o_version o /\
+  (b_build_with_defaults o = Ok o -> o_cat o'' = o_cat o /\ o_mod o'' = o_mod o).
+Proof. exact constructed_roundtrip. Qed.
+
 Print Assumptions C07_u32_roundtrip.
 Print Assumptions C07_name_cut_bounds.
 Print Assumptions C07_name_cut_identity.
@@ -203,3 +215,4 @@ Print Assumptions C07_builder_defaults_fixed.
 Print Assumptions C07_roundtrip_any_source.
 Print Assumptions C07_jax_roundtrip_complete.
 Print Assumptions C07_sub_ontology_roundtrip_complete.
+Print Assumptions C07_every_constructed_ontology_roundtrips.
